@@ -114,7 +114,9 @@ fn conv_raw_to_gds(src: &mut Src) -> Result<(String, usize), String> {
     // one input in four names shapes on layers that have no label purpose (export is then refused, or the
     // label goes somewhere: the same way every time)
     let no_label_purpose = src.prob(1, 4);
-    let mut m = if src.bool() { gen_abstract_heavy(src) } else { rawlib::gen_rawlib(src, &RawGenOpts { abstracts: false, pico: true, annotations: false, nets_need_label_purpose: !no_label_purpose, nonrect_nets: false, max_cells: 4, closed_polygons: false, abs_only_cells: true, shared_purpose_numbers: false, contact_near_bend: false, instances_of_abstracts: false }) };
+    // one in three may name polygons of any shape (where to put the label is then a search, which may fail)
+    let nonrect = src.prob(1, 3);
+    let mut m = if src.bool() { gen_abstract_heavy(src) } else { rawlib::gen_rawlib(src, &RawGenOpts { abstracts: false, pico: true, annotations: false, nets_need_label_purpose: !no_label_purpose, nonrect_nets: nonrect, max_cells: 4, closed_polygons: false, abs_only_cells: true, shared_purpose_numbers: false, contact_near_bend: false, instances_of_abstracts: false }) };
     // a library may be nameless (every LEF import is)
     if src.prob(1, 4) || FORCE_NAMELESS.with(|c| c.get()) {
         m.name = String::new();
@@ -125,7 +127,7 @@ fn conv_raw_to_gds(src: &mut Src) -> Result<(String, usize), String> {
     let t = match b.lib.to_gds() {
         Ok(g) => mask_dates(g),
         // (the debug text of a refusal may print a whole Layer, hash maps included: not part of the result)
-        Err(e) if no_label_purpose => {
+        Err(e) if no_label_purpose || nonrect => {
             let mut s = format!("{:?}", e);
             crate::engine::clip(&mut s, 40);
             format!("ERR {}", s)
@@ -309,7 +311,7 @@ fn conv_tetris(src: &mut Src) -> Result<(String, usize), String> {
     let mut keys = 0;
     for cp in lib.cells.iter() {
         let mut c = cp.write().map_err(|_| "lock")?;
-        if c.name.starts_with("leaf") {
+        if c.name.starts_with("leaf") && c.layout.is_some() {
             let l = c.layout.as_ref().unwrap();
             let mut a = tet::abs::Abstract::new(c.name.clone(), l.metals, l.outline.clone());
             for k in 0..l.metals {
